@@ -42,7 +42,7 @@ Section WithIndex.
 
   (* Beam::refractive_index *)
   Definition refractive_index (b : beam) (omega : R) : R :=
-    index (frequency_to_vacuum_wavelength omega) (b_dir b) (b_pol b).
+    beam_refractive_index index (b_dir b) (b_pol b) omega.
 
   (* Beam::wavevector *)
   Definition wavevector (b : beam) (omega : R) : vec :=
